@@ -100,7 +100,7 @@ def run(tier, seed):
         "carries at least one outer pin")
     found = {}
     deadline = time.time() + (900 if tier == "quick" else 6000)
-    scns = scenarios.INSTANCE_SCENARIOS
+    scns = scenarios.INSTANCE_SCENARIOS + scenarios.S18[:1] + scenarios.S18[2:]
     k = seed % len(scns)
     for scn in scns[k:] + scns[:k]:
         engine_a.explore(ID, scn, tier, cov, found, deadline)
